@@ -12,6 +12,7 @@ from mido import Message
 from ..ref import midi1
 
 ID = 'C02'
+ANCHORS = ['mido.messages.decode', 'mido.messages.messages']
 LEVEL = 'exploration'
 RULE = ('every integer string of length 0..3 over 0..255 (16 843 009 strings, '
         'partitioned over shards by first byte, distinct by construction, '
